@@ -64,7 +64,14 @@ func (m *defaultVarMocker) Apply(callback interface{}) {
 
 // Cancel 取消 mock
 func (m *defaultVarMocker) Cancel() {
-	m.targetValue.Elem().Set(reflect.ValueOf(m.originValue))
+	if m.originSaved {
+		target := m.targetValue.Elem()
+		if m.originValue == nil {
+			target.Set(reflect.Zero(target.Type()))
+		} else {
+			target.Set(reflect.ValueOf(m.originValue))
+		}
+	}
 	m.canceled = true
 }
 
